@@ -320,6 +320,7 @@ func C11(ctx *core.Ctx) {
 	}
 	ctx.Rule("C11.R1", "panic containment: Compile/Audit run under main's deferred recover; no goroutines in compiler packages; no process exit outside main", 4)
 	ctx.Rule("C11.R2", "recursion classification: structural / visited-guarded / validated-acyclic, else unguarded", 30)
+	c11SyntacticKind(ctx, cc)
 	c11PartialKey(ctx, cc)
 	c11TypePredicates(ctx, cc)
 	c11GoTypedefDecl(ctx, cc)
